@@ -74,16 +74,29 @@ func gen(t *rapid.T, r *evid.Recorder) Case {
 	}
 	c := Case{Shape: rapid.IntRange(0, 2).Draw(t, "shape"), PoolCap: rapid.SampledFrom([]int{-1, 0, 1, 1, 1, 2, 2, 3}).Draw(t, "cap"),
 		InMemIdx: rapid.Bool().Draw(t, "inmem"), SmallLRU: rapid.Bool().Draw(t, "smalllru"), YieldSeed: rapid.Uint32().Draw(t, "yseed")}
+	// "hot" scenarios: many readers hammering point lookups of objects spread over several packs, no writer:
+	// the shape that exposes check-then-act windows in the pack routing (MRU hint, index publish, pool eviction)
+	hot := rapid.IntRange(0, 2).Draw(t, "hot") == 0
 	nr := rapid.IntRange(2, 6).Draw(t, "readers")
+	kinds := readKinds
+	lo, hi := 3, 25
+	if hot {
+		if c.Shape == 1 {
+			c.Shape = 2
+		}
+		nr = rapid.IntRange(4, 8).Draw(t, "hotreaders")
+		kinds = []string{"get", "get", "getany", "size", "has", "delta"}
+		lo, hi = 30, 80
+	}
 	for i := 0; i < nr; i++ {
-		n := rapid.IntRange(3, 25).Draw(t, "nops")
+		n := rapid.IntRange(lo, hi).Draw(t, "nops")
 		var ops []ReadOp
 		for j := 0; j < n; j++ {
-			ops = append(ops, ReadOp{Kind: rapid.SampledFrom(readKinds).Draw(t, "rk"), Obj: rapid.IntRange(0, 1<<16).Draw(t, "obj")})
+			ops = append(ops, ReadOp{Kind: rapid.SampledFrom(kinds).Draw(t, "rk"), Obj: rapid.IntRange(0, 1<<16).Draw(t, "obj")})
 		}
 		c.Readers = append(c.Readers, ops)
 	}
-	if rapid.IntRange(0, 3).Draw(t, "haswriter") > 0 {
+	if !hot && rapid.IntRange(0, 3).Draw(t, "haswriter") > 0 {
 		n := rapid.IntRange(1, 5).Draw(t, "nw")
 		for j := 0; j < n; j++ {
 			c.Writer = append(c.Writer, WriteOp{Kind: rapid.SampledFrom(wk).Draw(t, "wk"), N: rapid.IntRange(1, 4).Draw(t, "wn")})
@@ -268,11 +281,14 @@ func check(c Case) (res evid.Result) {
 	verifhook.SetYield(func(string) {
 		n := ycount.Add(1)
 		x := (n*2654435761 ^ c.YieldSeed) * 2246822519
-		switch (x >> 13) % 8 {
-		case 0, 1, 2:
+		switch (x >> 13) % 16 {
+		case 0, 1, 2, 3, 4:
 			runtime.Gosched()
-		case 3:
+		case 5, 6:
 			time.Sleep(time.Duration(x>>20%50) * time.Microsecond)
+		case 7:
+			// a long stall inside a go-git call, so that other goroutines complete whole operations meanwhile
+			time.Sleep(time.Duration(200+x>>20%400) * time.Microsecond)
 		}
 	})
 	defer verifhook.SetYield(nil)
@@ -529,7 +545,10 @@ func check(c Case) (res evid.Result) {
 	for _, w := range c.Writer {
 		res.Labels = append(res.Labels, "writer:"+w.Kind)
 	}
-	res.NonTrivial = len(c.Readers) >= 2 && (ev || len(c.Writer) > 0)
+	if len(c.Writer) == 0 && len(c.Readers) >= 4 {
+		res.Labels = append(res.Labels, "hot-readers")
+	}
+	res.NonTrivial = len(c.Readers) >= 2 && (ev || len(c.Writer) > 0 || len(c.Readers) >= 4)
 	if len(fails) > 0 {
 		f := fails[0]
 		for _, x := range fails { // report the first observation that is not a confirmed known finding
